@@ -552,6 +552,14 @@ func cancelInvoice(invoice *Invoice, hash *lntypes.Hash,
 	invoice.State = ContractCanceled
 
 	for key, htlc := range invoice.Htlcs {
+		// An AMP invoice stays open after one of its sets was settled,
+		// so the htlcs of earlier, settled sets are expected here.
+		// They are final and keep their state, only the remaining
+		// htlcs are canceled together with the invoice.
+		if invoiceIsAMP && htlc.State == HtlcStateSettled {
+			continue
+		}
+
 		// We might not have a setID here in case we are cancelling
 		// an AMP invoice however the setID is only important when
 		// settling an AMP HTLC.
